@@ -184,6 +184,15 @@ def content_family(chk):
                 tags = {f[2]: [names[cat][p] for p in pats] for f in all_files(ents)}
                 native_check(chk, cat, ents, pats, names[cat], '%s eligible files below a directory called %r (file %r)' % (cat, dname, fname), tags)
                 chk.ok()
+    # files that are NOT eligible by their name although they hold Solidity text with findings (another letter case of the suffix, a suffix
+    # behind the suffix, no dot, a test contract): nothing of them may appear in the result, in any category
+    for cat in dl.CATS:
+        pats = [p for p, _ in dl.CATS[cat]['patterns']][:2]
+        for bad in ('Legacy.SOL', 'Token.Sol', 'x.sOl', 'x.sol.bak', 'sol', 'xsol', 'X.T.SOL', 'y.t.sol.sol', 'z.T.sol', 'w.sol ', 'v.sol.'):
+            ents = [('file', bad, 'x'), ('file', 'A.sol', 'a'), ('dir', 'd', [('file', bad, 'x2'), ('file', 'B.sol', 'b')])]
+            tags = {f[2]: [names[cat][p] for p in pats] for f in all_files(ents)}
+            native_check(chk, cat, ents, pats, names[cat], '%s a file called %r with findings in its text next to eligible files' % (cat, bad), tags)
+            chk.ok()
     chk.sample({'content family': '%d trees x every listing order of the top directory x 3 categories: token-free eligible files (%s) next to files with findings' % (len(trees), ', '.join(kinds))})
 
 
